@@ -3,6 +3,7 @@ import GeoVerif.Proofs.F64Val
 import GeoVerif.Proofs.TwoSum
 import GeoVerif.Model.Accum
 import GeoVerif.Proofs.Accum
+import GeoVerif.Proofs.MathG
 import Mathlib.Analysis.SpecialFunctions.Trigonometric.Basic
 import Mathlib.Tactic.Ring
 import Mathlib.Tactic.Linarith
@@ -632,6 +633,102 @@ example : F64.same (report (Accum.remainder ⟨.fin false 360 53, .fin false 100
 example : repB (.fin false 360 53) = true ∧ repB (.fin false 100 0) = true ∧ repB (.fin false 360 0) = true := by decide +kernel
 
 end AccumulatorHistory
+
+/-! ## `sincosd` / `sincosde` / `sind` / `cosd` / `tand` / `atand`: laws of the full models (`Model/MathG.lean`)
+
+The models are the code line by line around abstract libm kernels `k : Kern`; the driver executes them (with the harness's
+independent wide-precision kernel values) against `Math::sincosd`, `sincosde`, `sind`, `cosd`, `tand`, `atand` on every sample. -/
+section Trig
+
+/-- **the special values are correctly rounded**: `sqrt(1/2)`, `sqrt(3)/2` of the model are within half an ulp (`2^−54`) of
+√½ and √3/2, and `1/2` is exact -/
+theorem special_values_correctly_rounded :
+    (sqrtHalf.val - (2:ℚ) ^ (-54:ℤ)) ^ 2 < 1 / 2 ∧ 1 / 2 < (sqrtHalf.val + (2:ℚ) ^ (-54:ℤ)) ^ 2 ∧
+    (sqrt3Half.val - (2:ℚ) ^ (-54:ℤ)) ^ 2 < 3 / 4 ∧ 3 / 4 < (sqrt3Half.val + (2:ℚ) ^ (-54:ℤ)) ^ 2 ∧
+    half.val = 1 / 2 ∧ 0 < sqrtHalf.val ∧ 0 < sqrt3Half.val := by
+  rw [sqrtHalf_val, sqrt3Half_val, half_val]
+  norm_num
+
+/-- **the special-value branches are taken exactly at ±45° and ±30°** (every representable reduced angle), and there the
+model returns `(copysign(√½, r), √½)` resp. `(copysign(1/2, r), √3/2)` — the sign of the sine is the sign of the reduced
+angle (seeded change C16E drops it at −30°); everywhere else the kernel values are used -/
+theorem sincosCore_special (k : Kern) (s : Bool) (m : ℕ) (e : ℤ) (h : F64.IsRep (F64.fin s m e))
+    (hb : |(F64.fin s m e).val| ≤ (2:ℚ) ^ (1000:ℤ)) :
+    (sincosBranch (F64.fin s m e) = Branch.s45 ↔ |(F64.fin s m e).val| = 45) ∧
+    (sincosBranch (F64.fin s m e) = Branch.s30 ↔ |(F64.fin s m e).val| = 30) ∧
+    (|(F64.fin s m e).val| = 45 → sincosCore k (F64.fin s m e) = (copysign sqrtHalf (F64.fin s m e * degreeD), sqrtHalf)) ∧
+    (|(F64.fin s m e).val| = 30 → sincosCore k (F64.fin s m e) = (copysign half (F64.fin s m e * degreeD), sqrt3Half)) ∧
+    (|(F64.fin s m e).val| ≠ 45 → |(F64.fin s m e).val| ≠ 30 →
+      sincosCore k (F64.fin s m e) = (k.sin (F64.fin s m e * degreeD), k.cos (F64.fin s m e * degreeD))) := by
+  have h2 := eq_two_abs_iff s m e h hb
+  have h3 := eq_three_abs_iff s m e h hb
+  by_cases c2 : F64.eq ((2 : F64) * F64.abs (F64.fin s m e)) qd = true
+  · have v45 := h2.mp c2
+    have n30 : |(F64.fin s m e).val| ≠ 30 := by rw [v45]; norm_num
+    refine ⟨?_, ?_, ?_, ?_, ?_⟩
+    · unfold sincosBranch; simp [c2, v45]
+    · unfold sincosBranch; simp [c2, n30]
+    · intro _; unfold sincosCore; simp [c2]
+    · intro h30; exact absurd h30 n30
+    · intro h45; exact absurd v45 h45
+  · have c2' : F64.eq ((2 : F64) * F64.abs (F64.fin s m e)) qd = false := by simpa using c2
+    have n45 : |(F64.fin s m e).val| ≠ 45 := fun hv => c2 (h2.mpr hv)
+    by_cases c3 : F64.eq ((3 : F64) * F64.abs (F64.fin s m e)) qd = true
+    · have v30 := h3.mp c3
+      refine ⟨?_, ?_, ?_, ?_, ?_⟩
+      · unfold sincosBranch; simp [c2', c3, n45]
+      · unfold sincosBranch; simp [c2', c3, v30]
+      · intro h45; exact absurd h45 n45
+      · intro _; unfold sincosCore; simp [c2', c3]
+      · intro _ h30; exact absurd v30 h30
+    · have c3' : F64.eq ((3 : F64) * F64.abs (F64.fin s m e)) qd = false := by simpa using c3
+      have n30 : |(F64.fin s m e).val| ≠ 30 := fun hv => c3 (h3.mpr hv)
+      refine ⟨?_, ?_, ?_, ?_, ?_⟩
+      · unfold sincosBranch; simp [c2', c3', n45]
+      · unfold sincosBranch; simp [c2', c3', n30]
+      · intro h45; exact absurd h45 n45
+      · intro h30; exact absurd h30 n30
+      · intro _ _; unfold sincosCore; simp [c2', c3']
+
+/-- non-vacuity: −30 is representable and in range -/
+example : F64.IsRep (F64.fin true 30 0) ∧ |(F64.fin true 30 0).val| ≤ (2:ℚ) ^ (1000:ℤ) ∧ |(F64.fin true 30 0).val| = 30 := by
+  have hv : (F64.fin true 30 0).val = -30 := by rw [F64.val_fin]; norm_num
+  refine ⟨GeoVerif.Accum.isRep_of_repB _ (by decide +kernel), ?_, ?_⟩
+  · rw [hv]; norm_num
+    calc (30:ℚ) ≤ (2:ℚ) ^ (5:ℤ) := by norm_num
+      _ ≤ (2:ℚ) ^ (1000:ℤ) := Dy.two_zpow_le (by norm_num)
+  · rw [hv]; norm_num
+
+/-- **the reduction depends only on `x` modulo 360**: if `x' = x + 360·n` (as real numbers) then `remquo` returns the same reduced
+angle and a quotient that differs by `4n`, so the quadrant switch (`quadSwitch_add4`) sees the same quadrant — ties at odd
+multiples of 45° included (`remquo` rounds them to the even quotient, which a shift by `4n` preserves) -/
+theorem sincosd_reduction_periodic (sx sx' : Bool) (mx mx' : ℕ) (ex ex' : ℤ) (n : ℤ)
+    (h : (F64.fin sx' mx' ex').val = (F64.fin sx mx ex).val + 360 * n) :
+    F64.remquoN (F64.fin sx' mx' ex') qd = F64.remquoN (F64.fin sx mx ex) qd + 4 * n ∧
+    (F64.remainder (F64.fin sx' mx' ex') qd).val = (F64.remainder (F64.fin sx mx ex) qd).val ∧
+    ∀ (α : Type) [Neg α] (s c : α), quadSwitch (F64.remquoN (F64.fin sx' mx' ex') qd) s c = quadSwitch (F64.remquoN (F64.fin sx mx ex) qd) s c := by
+  have h90 : (F64.fin false 90 0).val = 90 := by rw [F64.val_fin]; simp
+  obtain ⟨hq, hr⟩ := remquo_add_even sx sx' false mx mx' 90 ex ex' 0 (by norm_num) (2 * n) (by
+    rw [h, h90]; push_cast; ring)
+  have hq' : F64.remquoN (F64.fin sx' mx' ex') qd = F64.remquoN (F64.fin sx mx ex) qd + 4 * n := by
+    rw [qd_eq, hq]; ring
+  refine ⟨hq', by rw [qd_eq]; exact hr, fun α _ s c => ?_⟩
+  rw [hq']; exact quadSwitch_add4 _ _ s c
+
+/-- **the reduction is odd**: `remquo(−x, 90)` returns the negated reduced angle and the negated quotient, and the quadrant switch
+turns `(−s, c)` with the negated quotient into `(−sin, cos)` — sine odd, cosine even, in every quadrant -/
+theorem sincosd_reduction_odd (sx : Bool) (mx : ℕ) (ex : ℤ) :
+    F64.remquoN (F64.neg (F64.fin sx mx ex)) qd = -F64.remquoN (F64.fin sx mx ex) qd ∧
+    (F64.remainder (F64.neg (F64.fin sx mx ex)) qd).val = -(F64.remainder (F64.fin sx mx ex) qd).val ∧
+    ∀ (s c : F64), quadSwitch (F64.remquoN (F64.neg (F64.fin sx mx ex)) qd) (-s) c
+      = (-(quadSwitch (F64.remquoN (F64.fin sx mx ex) qd) s c).1, (quadSwitch (F64.remquoN (F64.fin sx mx ex) qd) s c).2) := by
+  obtain ⟨hq, hr⟩ := remquo_neg sx false mx 90 ex 0 (by norm_num)
+  have hq' : F64.remquoN (F64.neg (F64.fin sx mx ex)) qd = -F64.remquoN (F64.fin sx mx ex) qd := by rw [qd_eq]; exact hq
+  refine ⟨hq', by rw [qd_eq]; exact hr, fun s c => ?_⟩
+  rw [hq']
+  exact quadSwitch_neg (fun a => by cases a <;> simp [Neg.neg, F64.neg]) _ s c
+
+end Trig
 
 /-! ## `atan2d`: the octant scheme is correct over ℝ -/
 
